@@ -1502,6 +1502,21 @@ int32_t tls13ParseServerHello(ssl_t *ssl,
     rc = tls13ParseServerHelloExtensions(ssl, pb);
     if (rc < 0)
     {
+        if (rc == SSL_ENCODE_RESPONSE && ssl->tls13IncorrectDheKeyShare)
+        {
+            /* HelloRetryRequest: the cipher suite it names fixes the
+               Transcript-Hash algorithm. The caller is about to replace
+               ClientHello1 by Hash(ClientHello1) (RFC 8446, 4.4.1), which
+               must be computed with that hash, not with the SHA-256
+               default used while no suite is known. */
+            if ((ssl->cipher = sslGetCipherSpec(ssl, cipher)) == NULL)
+            {
+                ssl->err = SSL_ALERT_ILLEGAL_PARAMETER;
+                psTraceIntInfo("Can't support requested cipher: %d\n", cipher);
+                return MATRIXSSL_ERROR;
+            }
+            return rc;
+        }
         /* In addition to failure cases, we can end up here
            if we negotiated TLS <1.3. In that case, return
            SSL_NO_TLS_1_3 to fall back to the <1.3 decode
